@@ -54,7 +54,7 @@ pub fn call(r: &mut Rng, pool: &[&'static str], fault: &str) -> Value {
             if r.chance(1, 2) { json!({"op": "CZ.fromStr", "args": {"s": s}}) } else { json!({"op": "CRelTo.fromStr", "args": {"s": s}}) }
         }
         6 => json!({"op": "CZ.startOfDay", "args": {"ns": ns, "tz": tz}}),
-        7 => json!({"op": if r.chance(1, 2) { "CZ.toString" } else { "CZ.offset" }, "args": {"ns": ns, "tz": tz}}),
+        7 => json!({"op": *r.pick(&["CZ.toString", "CZ.display", "CZ.offset"]), "args": {"ns": ns, "tz": tz}}),
         8 => {
             let dur = if huge { json!({"y": 300000, "d": r.range(0, 40)}) } else { json!({"mo": r.range(-14, 14), "d": r.range(-40, 40), "h": r.range(-30, 30)}) };
             let dur = fix_sign(dur);
@@ -133,11 +133,14 @@ pub fn plan(r: &mut Rng, sid: usize) -> Value {
     if sid % 3 == 1 {
         let zs: Vec<&'static str> = ZONES.iter().cloned().take(12).collect();
         let distinct: Vec<Value> = (0..12).map(|i| { let ns = instant(r); let tz = zs[i % zs.len()];
-            match i % 4 { 0 => json!({"op": "CZ.offset", "args": {"ns": ns, "tz": tz}}), 1 => json!({"op": "CZ.get", "args": {"ns": ns, "tz": tz, "f": "hour"}}),
+            match i % 4 { 0 => json!({"op": "CZ.offset", "args": {"ns": ns, "tz": tz}}), 3 => json!({"op": "CZ.display", "args": {"ns": ns, "tz": tz}}), 1 => json!({"op": "CZ.get", "args": {"ns": ns, "tz": tz, "f": "hour"}}),
                           _ => json!({"op": "CZ.get", "args": {"ns": ns, "tz": tz, "f": "offsetSeconds"}}) } }).collect();
         // mostly the same getter (offset_nanoseconds) on three (zone, instant) pairs with different offsets: consecutive reads of the
         // same pair from different threads, with writes for the other pairs in between
         let pairs: Vec<Value> = ["America/New_York", "Asia/Kolkata", "Australia/Sydney"].iter().map(|tz| json!({"op": "CZ.get", "args": {"ns": instant(r), "tz": tz, "f": "offsetSeconds"}})).collect();
+        // ... and the Display of a zoned date-time in a fourth zone: a result that depends on whether the lock happens to be free
+        // (a non-blocking fast path) differs from the call's result alone only while the others keep the lock busy
+        let mut pairs = pairs; pairs.push(json!({"op": "CZ.display", "args": {"ns": instant(r), "tz": "Europe/Berlin"}}));
         let calls = if n > 8 { 250 } else { 500 };
         let ph = Value::Array((0..n).map(|_| Value::Array((0..calls).map(|_| if r.chance(1, 8) { r.pick(&distinct[..]).clone() } else { r.pick(&pairs[..]).clone() }).collect())).collect());
         return json!({"n": n, "kind": "clean", "phases": [ph]});
